@@ -541,6 +541,55 @@ for _sp in ('even_asphere', 'polynomial', 'chebyshev'):
     _flat_special_contract(_sp)
 
 
+
+def _stop_after_insertion(ct, tier, seed):
+    """bounded (the property exercises insertion into the middle of a lens for the stop clause only): after any sequence of
+    additions -- appended in order, then stop surfaces inserted in front of, at and behind the current stop -- at most one surface
+    is the aperture stop, and it is the one added last with is_stop=True"""
+    import random
+    import time
+    import numpy as np
+    from optiland.optic import Optic
+    t0 = time.time()
+    rng = random.Random(seed * 71 + 5)
+    clauses, fails, cases = {}, [], 0
+
+    def note(cid, ok, detail, inputs):
+        c_ = clauses.setdefault(cid, {'paths': 0, 'proved': 0, 'backends': {}, 'failed': [], 'seconds': 0.0, 'bounded': True})
+        c_['paths'] += 1
+        if ok:
+            c_['proved'] += 1
+            c_['backends']['runtime'] = c_['backends'].get('runtime', 0) + 1
+        elif len(fails) < 10:
+            fails.append({'clause': cid, 'draws': inputs, 'note': detail})
+    for i in range(30 if tier == 'quick' else 400):
+        n = rng.randint(3, 8)
+        k0 = rng.randint(1, n - 1)
+        L = Optic()
+        L.add_surface(index=0, thickness=np.inf)
+        for k in range(1, n):
+            L.add_surface(index=k, radius=rng.uniform(20, 90), thickness=rng.uniform(1, 9), is_stop=(k == k0))
+        L.add_surface(index=n)
+        hist = [('append', n + 1, k0)]
+        for _ in range(rng.randint(1, 3)):
+            j = rng.randint(1, len(L.surface_group.surfaces) - 1)
+            L.add_surface(index=j, thickness=rng.uniform(1, 5), is_stop=True)
+            hist.append(('insert stop at', j))
+            stops = [k for k, s_ in enumerate(L.surface_group.surfaces) if s_.is_stop]
+            cases += 1
+            note('C01.runtime.at_most_one_stop_after_inserting_a_stop_surface', len(stops) <= 1, 'stops at %s' % stops, {'history': hist})
+            note('C01.runtime.the_stop_is_the_surface_inserted_as_stop', stops[:1] == [j] and L.surface_group.stop_index == j,
+                 'stops at %s, stop_index %s, inserted at %s' % (stops, L.surface_group.stop_index, j), {'history': hist})
+    return {'contract': ct.name, 'functions': ct.functions, 'props': ct.props,
+            'symbolic': {'clauses': clauses, 'paths': 0, 'errors': [], 'solver_s': 0.0, 'samples': [], 'wd_assumed': [], 'assumed': []},
+            'numeric': {'accepted': cases, 'rejected': 0, 'failures': fails[:10], 'concolic_agree': 0, 'encoder_mismatches': [],
+                        'samples': [{'histories': 'append 3-8 surfaces with a stop, then insert 1-3 stop surfaces anywhere'}]}, 'wall_s': time.time() - t0}
+
+
+contract('C01.runtime.stop_after_insertion', ['optiland/surfaces/surface_group.py:SurfaceGroup.add_surface', OP + ':Optic.add_surface'],
+         ['C01'], custom=_stop_after_insertion)(lambda c: None)
+
+
 # concrete inputs found by the defect-hunting sub-agents (bounded replay, see contracts/hunt.py)
 from . import hunt as _hunt  # noqa: E402
 _hunt.register('C01')
